@@ -74,11 +74,12 @@ PROPS = {
         level_text="Every allow/deny list of up to 2 items from a 13-item alphabet (well-formed and malformed), 10 peer addresses (v4, v6, zone-scoped, v4-mapped), 7 X-Forwarded-For shapes, through the real option parser and AccessDeniedHTTP/TCP; auth scheme x credentials matrix; end-to-end status codes and upstream hit counters through HTTPProxy.ServeHTTP and the tcp proxies.",
         level_note="Reference semantics from net/netip with v4-mapped addresses unmapped. Where the statement leaves a case open (address inside the well-formed part of a partly malformed rule) nothing is asserted.",
         units=[
-        unit("c12-rules", "route", ROUTE_COMMON + ["route/sched_test.go", "route/c12_test.go"], "^TestVerifC12", engines=SCHED),
+        unit("c12-rules", "route", ROUTE_COMMON + ["route/sched_test.go", "route/c12_test.go"], "^TestVerifC12Rules", engines=SCHED),
         unit("c12-http", "proxy", PROXY_COMMON + ["proxy/c12_test.go"], "^TestVerifC12"),
+        route_sched("c12-sched", "^TestVerifC12Sched", shards={"quick": 1, "thorough": 4}),
         unit("c12-tcp", "proxy/tcp", TCP_COMMON + ["tcp/c10_test.go", "tcp/c09_test.go"], "^TestVerifC12TCP", engines=SCHED + ["vhook", "vnet"], sched_env={"GOMAXPROCS": "1"},
              rewrite=[{"files": ["proxy/tcp/tcp_proxy.go", "proxy/tcp/sni_proxy.go", "proxy/tcp/tcp_dynamic_proxy.go"], "opts": ["-go", "-chan", "-sel", "net.DialTimeout=vhook.DialTimeout"]}]),
-    ], layers={"quick": ["c12-rules", "c12-http", "c12-tcp"], "thorough": ["c12-rules", "c12-http", "c12-tcp"]}),
+    ], layers={"quick": ["c12-rules", "c12-http", "c12-tcp", "c12-sched"], "thorough": ["c12-rules", "c12-http", "c12-tcp", "c12-sched"]}),
     "C07": dict(level="exploration", engine="benum",
         technique="bounded-exhaustive product of requests x route options through the real HTTPProxy + ReverseProxy to a recording upstream, reference rewrite on the escaped path",
         level_text="The full product of method x path (incl. %2F, %20, //) x query x header set x body shape x strip x prepend x host option x target query (36k quick, 72k thorough) and an upstream response matrix (status x headers x body shape x method) plus the no-route matrix are executed on the real HTTPProxy.ServeHTTP and httputil.ReverseProxy against a real loopback upstream; every observable (method, request-target, Host, headers, body, status) is compared with the statement's rewrite rules.",
